@@ -16,6 +16,7 @@ import PdModel.Proto
 * `fetch (F <u:url> <C:b:hex|E|B> <Z|P:b:hex|C:b:hex>)*` → `<ok|BaseException> | <links> | <log>`
 * `xref <N|u:objForFullName> <u:expandName> <N|u:context result> <u:identifier> <k=b=l>*` → `internal u:… | external u:… | unresolved`
 * `linkto <N|u:resolveName> <u:expandName> <u:identifier> <k=b=l>*`  → same
+* `subjects <makehtml> <makeintersphinx> <summaryPagesOnly> <u:htmlsubject>*` (0/1 flags) → `roots | nothing | named u:… | no-inventory`
 * `role <DOCUMENTABLEKIND>`              → `u:py:<type>`
 * `gen <forest>`                        → `ok <u:content> | <unknown-type names>` | `AssertionError`
 * `roundtrip <u:base> <forest>`         → content, links of parse(content), log, visible objects, getLink per object
@@ -247,6 +248,15 @@ def handle (args : List String) : String :=
   | "linkto" :: r :: f :: i :: links =>
     match parseOptStr r, Proto.decodeStr f, Proto.decodeStr i, links.mapM parseLinkTok with
     | some resolved, some fullID, some ident, some d => showTarget (linkTo resolved (fun _ => fullID) d ident)
+    | _, _, _, _ => "bad-op"
+  | "subjects" :: mh :: mi :: sp :: names =>
+    match parseBool mh, parseBool mi, parseBool sp, names.mapM Proto.decodeStr with
+    | some makehtml, some makeinv, some summary, some ns =>
+      (match inventorySubjects makehtml makeinv ns summary with
+       | none => "no-inventory"
+       | some .roots => "roots"
+       | some .nothing => "nothing"
+       | some (.named l) => "named " ++ " ".intercalate (l.map Proto.encodeStr))
     | _, _, _, _ => "bad-op"
   | ["role", k] =>
     match parseDocKind k with
